@@ -17,6 +17,7 @@ HARNESS_KW = {
     "h_arena": {"libs": ["-Wl,--wrap=mmap,--wrap=munmap,--wrap=mprotect,--wrap=madvise"]},
     "h_lowlevel": {"libs": ["-Wl,--wrap=malloc,--wrap=mmap,--wrap=mprotect"]},
     "h_tempsrc": {"libs": ["-Wl,--wrap=malloc,--wrap=free"]},
+    "h_jointlife": {"opt": "-O2"},
 }
 
 # histories with a FAILED growth of a growing block source (the failure must leave block size / next_capacity / the stack's
